@@ -345,9 +345,7 @@ func (p *Parser) parseExpression(precedence ast.Priority) ast.Node {
 	}
 	prefix := p.prefixParseFns[p.curToken.Type()]
 	if prefix == nil {
-		if !p.peekTokenIs(token.LAMBDA) { // To make () => { ... } without errors.
-			p.noPrefixParseFnError(p.curToken)
-		}
+		p.noPrefixParseFnError(p.curToken)
 		return nil
 	}
 	leftExp := prefix()
@@ -430,6 +428,10 @@ func (p *Parser) parseBoolean() ast.Node {
 
 func (p *Parser) parseGroupedExpression() ast.Node {
 	p.nextToken()
+	if p.curTokenIs(token.RPAREN) && p.peekTokenIs(token.LAMBDA) { // () => { ... } case
+		p.nextToken()
+		return p.parseLambdaMulti(nil)
+	}
 	exp := p.parseExpression(ast.LOWEST)
 	log.Debugf("parseGroupedExpression: %#v", exp)
 	if p.peekTokenIs(token.LAMBDA) { // () => { ... } case
